@@ -166,7 +166,7 @@ namespace occa {
 
   occa::memory memory::slice(const dim_t offset,
                              const dim_t count) const {
-    if (!isInitialized()) return memory();
+    assertInitialized();
 
     OCCA_ERROR("Cannot have a negative offset (" << offset << ")",
                offset >= 0);
@@ -329,9 +329,7 @@ namespace occa {
   }
 
   occa::memory memory::clone() const {
-    if (!modeMemory) {
-      return occa::memory();
-    }
+    assertInitialized();
 
     occa::memory mem = (
       occa::device(modeMemory->getModeDevice())
